@@ -447,6 +447,12 @@ void EntityManager::applyStorage(TemporalStorage& storage) { // optimized versio
     }
 }
 
+WorldVersion EntityManager::worldVersion() const noexcept {
+    // mutable component access and markDirty must stamp with the current world version: a job that ran after the
+    // last update() remembers a later version than the copy kept in world_version_, and would miss the change
+    return world_.version();
+}
+
 [[nodiscard]] ThreadId EntityManager::threadId() const noexcept {
     MUSTACHE_PROFILER_BLOCK_LVL_3(__FUNCTION__ );
     return world_.dispatcher().currentThreadId();
